@@ -18,6 +18,8 @@ pub struct Session {
     pub lines: u64,
     pub dir: String,
     pub last_stats: (u64, u64, u64),
+    /// also ask the driver for the byte-level machine's answer on every VM-path search
+    pub bytes_mode: bool,
 }
 
 pub fn json_str(s: &str) -> String {
@@ -62,6 +64,7 @@ impl Session {
             lines: 0,
             dir: dir.to_string(),
             last_stats: (0, 0, 0),
+            bytes_mode: false,
         }
     }
 
@@ -222,6 +225,13 @@ impl Session {
             &format!("caps\t{}\t{}\t{}\t{}", hex(text), pos, skipped as u8, limit),
             &format!("{}\t{}", ans, stats),
         );
+        if self.bytes_mode && !b.is_wrap {
+            // the same case again for the byte-level machine of the model (Model/VMBytes.lean: runB)
+            self.line(
+                &format!("capsB\t{}\t{}\t{}\t{}", hex(text), pos, skipped as u8, limit),
+                &format!("{}\t{}", ans, stats),
+            );
+        }
         ans
     }
 }
